@@ -415,7 +415,7 @@ def sib(ctx):
                 if len(srcs) == 1:
                     nm = srcs[0]
                 return [(st, Top(ret_ty(eng_, site), "set(%s)" % nm))]
-            if re.search(r"Iterator::(cloned|copied|map|filter|by_ref|rev|chain|inspect|take|skip)(::<.*>)?$", p) and args:
+            if re.search(r"(Iterator::(cloned|copied|map|filter|by_ref|rev|chain|inspect|take|skip)(::<.*>)?|IntoIterator::into_iter|IntoIterator>::into_iter|::iter|Clone::clone|ToOwned::to_owned)$", p) and args:
                 # lazy adaptors: keep the name of the iterated source
                 from engine.contracts import ret_ty
                 srcs = sorted(set(re.findall(r"\*?cfg\.\w+\.Some\.0", repr(args[0]) + " " + repr(_peek(eng_, st, args[0])))))
